@@ -77,6 +77,24 @@ type Mint struct {
 	// and marking them as spent or pending. These are separate db calls on
 	// two tables so without it concurrent requests could use the same proof.
 	proofsMu *sync.Mutex
+
+	// meltQuotesBusy holds the ids of the melt quotes that a melt request or
+	// a check of a pending quote is working on. What these do (read the state
+	// of the quote and of the payment, then release or settle the pending
+	// proofs of the quote and update it) are several calls to the db and the
+	// lightning backend, so two of them on the same quote must not interleave:
+	// one could release the inputs of a newer melt request for the same quote
+	// based on what it read before that request was made.
+	meltQuotesBusy *sync.Map
+}
+
+// tryLockMeltQuote marks the melt quote as being worked on. It returns false
+// if a melt request or a check of the quote state is already working on it.
+func (m *Mint) tryLockMeltQuote(quoteId string) (func(), bool) {
+	if _, busy := m.meltQuotesBusy.LoadOrStore(quoteId, struct{}{}); busy {
+		return nil, false
+	}
+	return func() { m.meltQuotesBusy.Delete(quoteId) }, true
 }
 
 func LoadMint(config Config) (*Mint, error) {
@@ -133,6 +151,8 @@ func LoadMint(config Config) (*Mint, error) {
 
 		mintQuoteMu: &sync.Mutex{},
 		proofsMu:    &sync.Mutex{},
+
+		meltQuotesBusy: &sync.Map{},
 	}
 
 	// if no keysets stored, just create a new one
@@ -741,6 +761,23 @@ func (m *Mint) GetMeltQuoteState(ctx context.Context, quoteId string) (storage.M
 
 	// if quote is pending, check with backend if status of payment has changed
 	if meltQuote.State == nut05.Pending {
+		// if a melt request or another check is working on this quote, it will
+		// settle it. For now it is pending.
+		release, ok := m.tryLockMeltQuote(quoteId)
+		if !ok {
+			return meltQuote, nil
+		}
+		defer release()
+
+		// read the quote again now that nobody else can change it
+		meltQuote, err = m.db.GetMeltQuote(quoteId)
+		if err != nil {
+			return storage.MeltQuote{}, cashu.QuoteNotExistErr
+		}
+		if meltQuote.State != nut05.Pending {
+			return meltQuote, nil
+		}
+
 		m.logDebugf("checking status of payment with hash '%v' for melt quote '%v'",
 			meltQuote.PaymentHash, meltQuote.Id)
 
@@ -851,6 +888,13 @@ func (m *Mint) MeltTokens(ctx context.Context, meltTokensRequest nut05.PostMeltB
 		Yhex := hex.EncodeToString(Y.SerializeCompressed())
 		Ys[i] = Yhex
 	}
+
+	// only one melt request or check of the quote state at a time for a quote
+	release, ok := m.tryLockMeltQuote(meltTokensRequest.Quote)
+	if !ok {
+		return storage.MeltQuote{}, cashu.QuotePending
+	}
+	defer release()
 
 	// hold the lock from checking the quote and proofs until the proofs
 	// and the quote are set as pending. It is released before the payment.
